@@ -225,6 +225,13 @@ class BodyInfo:
                     return const(1)
             return r
         if k == "un":
+            a = rv["a"]
+            # `!0_usize`: bitwise complement of an integer literal (the bool form `!flag` is handled by mk_un)
+            if rv["op"] == "Not" and a.get("k") == "const" and (a.get("ty") or {}).get("k") == "int" and "int" in a and a.get("size"):
+                try:
+                    return const((~int(a["int"])) & ((1 << (8 * int(a["size"]))) - 1))
+                except ValueError:
+                    pass
             return mk_un(rv["op"], self.operand(rv["a"], val))
         if k == "discr":
             return mk_discr(self.place(rv["pl"], val), getattr(getattr(self.fn, "facts", None), "enum_discr", None))
